@@ -664,6 +664,8 @@ var decJobs = []decJob{
 	{"pkg/builder/method.go", "", "usesElementLoop", "usesElementLoopStep", "", false, "%loop"},
 	{"pkg/builder/assignment.go", "assignmentBuilder", "resolveTemplatedExpr", "templatedHead", "for i := 1", false, ""},
 	{"pkg/builder/assignment.go", "assignmentBuilder", "resolveTemplatedExpr", "templatedStep", "", false, "%loop"},
+	{"pkg/util/import.go", "ImportNames", "TypeName", "typeName", "", false, ""},
+	{"pkg/util/import.go", "ImportNames", "IsExternal", "isExternal", "", false, ""},
 }
 
 func genDecisions(repo string) string {
